@@ -164,8 +164,13 @@ class Engine(StmtMixin):
         forms = base + [neg]
         allf = self.saturate(forms, base, depth, focus=[neg])
         r, model = self._check(allf, timeout_ms)
-        if r == z3.unknown:
-            r, model = self._assisted(allf, timeout_ms, 2)
+        if r != z3.unsat:
+            # `sat` under partial unfolding is not a verdict either: try the assisted ladder before looking for a witness
+            r2, model2 = self._assisted(allf, timeout_ms, 2)
+            if r2 == z3.unsat:
+                r, model = r2, None
+            elif r == z3.unknown:
+                r, model = r2, model2
         if r != z3.unsat:
             # a `sat` under partial unfolding / with quantifiers may be an artefact, and with quantifiers z3
             # mostly answers `unknown`: look for a witness on bounded shapes where the encoding is exact
